@@ -51,6 +51,7 @@ type Env struct {
 	abort           bool
 	rootClosed      bool
 	snaps           map[int]*SnapCopy
+	san             tally.Sanitizer
 	main            *taskEnv
 	tasks           []*taskEnv
 	ext             interface{} // stack-specific state (m3, prom, transport)
@@ -209,6 +210,9 @@ func (env *Env) setup() error {
 	for _, b := range env.Prog.sharedSpecs() {
 		env.sharedSpecs = append(env.sharedSpecs, b.Buckets())
 		env.sharedSpecsOrig = append(env.sharedSpecsOrig, specOf(b.Buckets()))
+	}
+	if cfg.Sanitize != nil {
+		env.san = tally.NewSanitizer(*cfg.Sanitize.Tally())
 	}
 	switch cfg.Stack {
 	case "plain", "cached":
